@@ -5,6 +5,7 @@ import XModel.ManagerC13
 import XModel.ManagerFn
 import XModel.ManagerC17
 import XModel.ManagerFnHist
+import XModel.ManagerMixed
 /-! JSON codec shared by the driver suites (Appendix A of DESIGN.md).  Total: malformed input is
     `none`, never defaulted. -/
 namespace Codec
